@@ -10,6 +10,7 @@ import Emboss.Lemmas.ConstraintsTypes
 import Emboss.Lemmas.ConstraintsDefaults
 import Emboss.Lemmas.ConstraintsReq
 import Emboss.Lemmas.ConstraintsLookup
+import Emboss.Lemmas.ConstraintsLoc
 import Emboss.Generated.Prelude
 namespace Emboss.Constraints
 open Emboss.Generated Emboss.Generated.Prelude
@@ -255,6 +256,35 @@ theorem C14_reserved_words (n : String) (e : EK) :
 /-- Tests on the regenerated list: C / C++ / Python words are in, ordinary names are not. -/
 example : isReserved "int" = true ∧ isReserved "class" = true ∧ isReserved "lambda" = true ∧
     isReserved "length" = false ∧ isReserved "Int" = false := by decide +kernel
+
+/-! ### Error locations of the attribute-table rules -/
+
+/-- **Where the attribute-table errors point.**  For every attribute list (of a module, type
+definition, field or enum value) and scope table: the located check (`checkAttrListL`, tied to
+the real error locations by the correspondence) reports exactly the kinds of `checkAttrList` —
+so everything above about acceptance applies to it — and every error points into the list it
+was given: at one of ITS attributes (index in range), a duplicate's note at an EARLIER
+attribute of the same list; never at another definition. -/
+theorem C14_attr_errors_located (specs : List (String × Bool)) (attrs : List Attr) :
+    (checkAttrListL specs [] 0 attrs).map (·.k) = checkAttrList specs [] attrs ∧
+    ∀ e ∈ checkAttrListL specs [] 0 attrs,
+      e.idx < attrs.length ∧ ∀ j, e.note = some j → j < e.idx := by
+  refine ⟨checkAttrListL_kinds specs attrs [] 0, fun e he => ?_⟩
+  have h := checkAttrListL_where specs attrs [] 0 (by intro s hs; cases hs) e he
+  exact ⟨by omega, h.2.2⟩
+
+/-- non-vacuity: on a field, `[byte_order: 3] [(cpp) x: 1] [foo: 1] [byte_order: "Null"]
+[$default byte_order: "Null"]` gives: wrong value at the VALUE of #0, unknown attribute at the
+NAME of #2 (the qualified #1 is skipped), duplicate at the WHOLE of #3 with the note at #0, "may
+not be defaulted" at the NAME of #4. -/
+example :
+    checkAttrListL AttrTable.physicalFieldAttrs [] 0
+      [⟨"byte_order", "", false, .int (some 3)⟩, ⟨"x", "cpp", false, .int (some 1)⟩,
+       ⟨"foo", "", false, .int (some 1)⟩, ⟨"byte_order", "", false, .str "Null"⟩,
+       ⟨"byte_order", "", true, .str "Null"⟩]
+    = [⟨.attrChoice "byte_order", 0, .value, none⟩, ⟨.unknownAttr "foo", 2, .name, none⟩,
+       ⟨.dupAttr "byte_order", 3, .whole, some 0⟩, ⟨.noDefault "byte_order", 4, .name, none⟩] := by
+  decide +kernel
 
 /-! ### Attribute lookups and the qualifier quirk -/
 
